@@ -543,6 +543,17 @@ func (f *folder) evalInstr(env map[ssa.Value]fval, mem map[*ssa.Alloc]fval, in s
 		}
 		env[x] = top
 	case *ssa.Index:
+		// an element of an array value held as "#i" fields
+		if av := f.val(env, x.X); av.fields != nil {
+			if iv := f.val(env, x.Index); iv.k != nil && iv.k.Kind() == constant.Int {
+				if e, ok := av.fields["#"+iv.k.ExactString()]; ok {
+					env[x] = e
+					return
+				}
+			}
+			env[x] = top
+			return
+		}
 		if l, ok := f.val(env, x.X).cv.(*ListV); ok {
 			if iv := f.val(env, x.Index); iv.k != nil && iv.k.Kind() == constant.Int {
 				if i, ok := constant.Int64Val(iv.k); ok && i >= 0 && int(i) < len(l.Elems) {
